@@ -186,6 +186,12 @@ def run_discrete(case, monitor, modular=True, only=None, read_names=False, pre=N
     def go():
         if monitor == "offd":
             spec = build(case, "offd", modular, only)
+            if pre:
+                # the object has evaluated another trace before
+                k_ = len(next(iter(pre.values())))
+                ds0 = {"time": list(range(k_))}
+                ds0.update({v: list(pre[v]) for v in vs})
+                spec.evaluate(ds0)
             ds = {"time": list(range(n))}
             ds.update({v: list(data[v]) for v in vs})
             res = [p[1] for p in spec.evaluate(ds)]
